@@ -256,7 +256,8 @@ def gen_inst_case(rng, quick=True):
     flags = None
     if rng.random() < 0.6:
         flags = {"minv": rng.choice([0, 0, 5, 10]), "maxv": rng.choice([0, 20, 20, 50]),
-                 "minb": rng.choice([0, 0, 0, 30, 500]), "maxb": rng.choice([2 ** 63 - 1, 2 ** 63 - 1, 40, 200, 5000, 10])}
+                 "minb": rng.choice([0, 0, 0, 30, 500]), "maxb": rng.choice([2 ** 63 - 1, 2 ** 63 - 1, 40, 200, 5000, 10]),
+                 "bpd": rng.random() < 0.3}
     return {"jobs": jobs, "edges": edges, "policy": pol, "variance": variance, "flags": flags, "completion": comp,
             "names": JOBNAMES}
 
@@ -270,7 +271,8 @@ def g_job(k, j):
 def g_iflags(f):
     if f is None:
         return "no_flags"
-    return "(mkIF %s %s (%s, %s))" % (gz(f["minb"]), gz(f["maxb"]), gz(f["minv"]), gz(f["maxv"]))
+    return "(mkIF %s %s (%s, %s) %s)" % (gz(f["minb"]), gz(f["maxb"]), gz(f["minv"]), gz(f["maxv"]),
+                                        core.gbool(bool(f.get("bpd"))))
 
 
 def g_inst_case(c, r):
@@ -429,7 +431,7 @@ def gen_loader_case(rng, forced_policy=None):
     rf = None
     if rng.random() < 0.6:
         rf = {"rate": 0.0, "coef": 0.0, "period": 0, "inv": 0, "unique": False, "repl": 1, "slo": -1, "minb": 0,
-              "maxb": 2 ** 63 - 1, "timeout": 2 ** 63 - 1}
+              "maxb": 2 ** 63 - 1, "timeout": 2 ** 63 - 1, "bpd": rng.random() < 0.25}
         pers = [g for g in graphs if g.get("release_policy") == "periodic"]
         if pers:      # a finite horizon: a few periods after the latest start
             rf["timeout"] = max(g.get("start", 0) for g in pers) + \
@@ -457,6 +459,7 @@ def gen_loader_case(rng, forced_policy=None):
                  "--unique_work_profiles=%s" % ("true" if rf["unique"] else "false"),
                  "--replication_factor=%d" % rf["repl"], "--override_slo=%d" % rf["slo"],
                  "--min_deadline=%d" % rf["minb"], "--max_deadline=%d" % rf["maxb"], "--loop_timeout=%d" % rf["timeout"],
+                 "--use_branch_predicated_deadlines=%s" % ("true" if rf["bpd"] else "false"),
                  "--random_seed=%d" % rng.randrange(2 ** 31)]
     return {"doc": doc, "fmt": rng.choice(["json", "yaml", "yaml"]), "flags": flags, "rf": rf, "names": JOBNAMES,
             "pnames": PNAMES, "gnames": GNAMES, "rnames": RNAMES, "rids": RIDS}
@@ -506,10 +509,10 @@ def g_dgraph(g):
 def g_rflags(rf):
     if rf is None:
         return "None"
-    return "(Some (mkRF %s %s %s %s %s %s %s %s %s %s))" % (
+    return "(Some (mkRF %s %s %s %s %s %s %s %s %s %s %s))" % (
         g_fl(fl_of_float(rf["rate"])), g_fl(fl_of_float(rf["coef"])), gz(rf["period"]), gz(rf["inv"]),
         core.gbool(rf["unique"]), gz(rf["repl"]), gz(rf["slo"]), gz(rf["minb"]), gz(rf["maxb"]),
-        gz(rf.get("timeout", 2 ** 63 - 1)))
+        gz(rf.get("timeout", 2 ** 63 - 1)), core.gbool(bool(rf.get("bpd"))))
 
 
 def g_load_case(c, r):
@@ -559,44 +562,92 @@ def is_periodic_finding(c):
     return c["flags"] is None and any(g.get("release_policy") == "periodic" for g in c["doc"].get("graphs", []))
 
 
+class Deferred:
+    """Streams and monitors are independent coqc runs: they are registered with a handler for their result, evaluated
+    together in a thread pool, and the handlers (which record violations) run afterwards in registration order, so
+    the verdict and the evidence do not depend on scheduling."""
+
+    def __init__(self, ctx):
+        self.ctx = ctx
+        self.jobs = []
+
+    def add(self, name, thunk, handler):
+        self.jobs.append((name, thunk, handler))
+
+    def run(self):
+        from concurrent.futures import ThreadPoolExecutor
+        with ThreadPoolExecutor(max_workers=8) as ex:
+            futs = [ex.submit(t) for _, t, _ in self.jobs]
+        for (name, _, handler), f in zip(self.jobs, futs):
+            try:
+                handler(f.result())
+            except core.ModelEvalError as e:
+                self.ctx.broken.append({"kind": "correspondence", "name": name, "detail": str(e)[-600:]})
+        st = self.ctx.cov["streams"]
+        n = sum(v["cases"] for k, v in st.items() if not k.endswith(":monitor"))
+        self.ctx.cov["evaluations"] = n
+        self.ctx.cov["traces_validated_against_impl"] = n
+
+
 def run(ctx):
     import time
+    from concurrent.futures import ThreadPoolExecutor
     t0 = time.time()
     phases = ctx.cov.setdefault("phase_seconds", {})
 
     def mark(name):
         phases[name] = round(time.time() - t0, 1)
     ctx.fingerprint(FILES)
-    ctx.translate(["Time"])
+    ctx.translate(["Time", "Release"])
     ctx.build("C19", deps=["Model/Release.v"])
     mark("build")
     quick = ctx.tier == "quick"
     rng = ctx.rng
-    n_rt = 900 if quick else 12000
-    n_fl = 800 if quick else 10000
+    n_rt = 720 if quick else 12000
+    n_fl = 600 if quick else 10000
+    n_inst = 400 if quick else 7000
+    n_cl = 250 if quick else 4000
+    n_ld = 300 if quick else 5000
+    n_wl = 100 if quick else 1500
 
+    # ---------------- generation (the only consumer of ctx.rng), then the real classes, four adapters side by side
     rt_cases = []
     for i in range(n_rt):
         kind = KINDS[i % len(KINDS)]
         pol, comp = gen_policy(rng, kind)
         rt_cases.append({"policy": pol, "completion": comp})
     fops = gen_float_ops(rng, n_fl)
-    impl = core.run_impl("release.py", {"release_times": rt_cases, "float_ops": fops})
+    inst_cases = [gen_inst_case(rng) for _ in range(n_inst)]
+    cl_cases = [gen_cl_case(rng) for _ in range(n_cl)]
+    ld_cases = []
+    while len(ld_cases) < n_ld:
+        c = gen_loader_case(rng)
+        if not is_periodic_finding(c):
+            ld_cases.append(c)
+    wl_cases = [gen_worker_case(rng) for _ in range(n_wl)]
+    corpus_files, corpus_payload = corpus_payloads()
+    with ThreadPoolExecutor(max_workers=4) as ex:
+        f1 = ex.submit(core.run_impl, "release.py", {"release_times": rt_cases, "float_ops": fops})
+        f2 = ex.submit(core.run_impl, "release.py", {"instantiate": inst_cases, "closed_loop": cl_cases})
+        f3 = ex.submit(core.run_impl, "release.py", {"loader": ld_cases, "worker_loader": wl_cases})
+        f4 = ex.submit(core.run_impl, "release.py", corpus_payload)
+    impl, impl2, impl3, impl4 = f1.result(), f2.result(), f3.result(), f4.result()
+    mark("implementation")
+    D = Deferred(ctx)
 
     # ---------------- S-float
     ctx.rules.append("S-float: binary64 +, int->float, round(), <, EventTime.fuzz(forced draw) on generated doubles with "
                      "full 53-bit mantissas, ties, cancellation, 2^53 boundaries; distinct = distinct (op, operands); "
                      "non-trivial = the exact result is not representable (rounding happens) or is a tie")
-    try:
-        cases = [(g_fop(o), r, o) for o, r in zip(fops, impl["float_ops"])]
-        mism = ctx.model_stream("S-float", HDR, "fop", "f_observe", cases)
+
+    def h_float(mism):
         for idx, mv in mism[:3]:
             ctx.violation("float%d" % idx, {"stream": "S-float", "case": fops[idx], "implementation": impl["float_ops"][idx],
                                              "model": mv,
                                              "what": ("EventTime.fuzz(forced draw) is not round(time + max(min_bound, min(max_bound, draw)))"
                                                       if fops[idx][0] == "fuzz" else "binary64 model disagrees with CPython")})
-    except core.ModelEvalError as e:
-        ctx.broken.append({"kind": "correspondence", "name": "S-float", "detail": str(e)[-600:]})
+    fl_cases = [(g_fop(o), r, o) for o, r in zip(fops, impl["float_ops"])]
+    D.add("S-float", lambda: ctx.model_stream("S-float", HDR, "fop", "f_observe", fl_cases, shard=200), h_float)
     ctx.cov["distinct_nontrivial"] += len({repr(o) for o in fops if o[0] in ("add", "round", "fuzz")})
 
     # ---------------- S-release-times
@@ -623,47 +674,44 @@ def run(ctx):
     ctx.cov["distinct_nontrivial"] += nt
     ctx.cov["input_distribution"] = {"release_policy_cases": dist, "release_policy_errors": errs}
     ctx.sample({"stream": "S-release-times", "case": rt_cases[2], "impl": impl["release_times"][2]})
-    try:
-        cases = [(g_rt_case(c["policy"], c["completion"], r["draws"]), r["res"], c)
-                 for c, r in zip(rt_cases, impl["release_times"])]
-        mism = ctx.model_stream("S-release-times", HDR, "rt_case", "rt_observe", cases)
+
+    def h_rt(mism):
         for idx, mv in mism[:3]:
             ctx.violation("rt%d" % idx, {"stream": "S-release-times", "case": rt_cases[idx],
                                           "implementation": impl["release_times"][idx], "model": mv,
                                           "what": "release times differ from the model of get_release_times"})
-        # the parameters the policy hands to numpy (1/rate; 1/coef, coef/rate)
-        cases = []
-        keep = []
-        for c, r in zip(rt_cases, impl["release_times"]):
-            if r["draws"]:
-                d = r["draws"][0]
-                exp = [0, d[3][0]] if d[0] == "poisson" else [0, d[3]]
-                cases.append((g_policy(c["policy"]), exp, c))
-                keep.append((c, r))
-        mism = ctx.model_stream("S-rng-request", HDR, "policy", "rng_request", cases)
+    rtc = [(g_rt_case(c["policy"], c["completion"], r["draws"]), r["res"], c) for c, r in zip(rt_cases, impl["release_times"])]
+    D.add("S-release-times", lambda: ctx.model_stream("S-release-times", HDR, "rt_case", "rt_observe", rtc, shard=180), h_rt)
+    # the parameters the policy hands to numpy (1/rate; 1/coef, coef/rate)
+    rq_cases = []
+    rq_keep = []
+    for c, r in zip(rt_cases, impl["release_times"]):
+        if r["draws"]:
+            d = r["draws"][0]
+            exp = [0, d[3][0]] if d[0] == "poisson" else [0, d[3]]
+            rq_cases.append((g_policy(c["policy"]), exp, c))
+            rq_keep.append((c, r))
+
+    def h_rq(mism):
         for idx, mv in mism[:3]:
-            ctx.violation("rngreq%d" % idx, {"stream": "S-rng-request", "case": keep[idx][0], "implementation": keep[idx][1]["draws"][0][3],
+            ctx.violation("rngreq%d" % idx, {"stream": "S-rng-request", "case": rq_keep[idx][0],
+                                              "implementation": rq_keep[idx][1]["draws"][0][3],
                                               "model": mv, "what": "distribution parameters requested from numpy differ from "
                                                                    "(1/rate) / (1/coefficient, coefficient/rate)"})
-    except core.ModelEvalError as e:
-        ctx.broken.append({"kind": "correspondence", "name": "S-release-times", "detail": str(e)[-600:]})
+    D.add("S-rng-request", lambda: ctx.model_stream("S-rng-request", HDR, "policy", "rng_request", rq_cases), h_rq)
 
-    mark("float+release-times")
     # ---------------- S-instantiate, S-closed-loop
-    n_inst = 450 if quick else 7000
-    n_cl = 300 if quick else 4000
-    inst_cases = [gen_inst_case(rng) for _ in range(n_inst)]
-    cl_cases = [gen_cl_case(rng) for _ in range(n_cl)]
-    impl2 = core.run_impl("release.py", {"instantiate": inst_cases, "closed_loop": cl_cases})
     ctx.rules.append("S-instantiate: JobGraph built with add_job/add_child (1-6 jobs, random DAG edges in shuffled order, "
                      "rare duplicate names/edges/cycles/strategy-less jobs/empty graphs), every policy, variance None or a pair "
-                     "(incl. reversed and negative), flags None or (min/max deadline, default variance); "
+                     "(incl. reversed and negative), flags None or (min/max deadline, default variance, "
+                     "use_branch_predicated_deadlines); "
                      "JobGraph.generate_task_graphs compared field by field (task names, release, deadline, probability, "
                      "children order, freshness of ids) with the recorded numpy and uniform draws as oracle; distinct = "
                      "distinct case; non-trivial = >= 2 jobs with an edge and >= 1 task graph, or an error")
     nt = 0
-    shapes = {"ok_graphs": 0, "errors": 0, "with_edges": 0}
+    shapes = {"ok_graphs": 0, "errors": 0, "with_edges": 0, "branch_predicated": 0}
     for c, r in zip(inst_cases, impl2["instantiate"]):
+        shapes["branch_predicated"] += bool(c["flags"] and c["flags"].get("bpd"))
         if r["res"][0] == 1:
             shapes["errors"] += 1
             nt += 1
@@ -675,32 +723,36 @@ def run(ctx):
     ctx.cov["distinct_nontrivial"] += nt
     ctx.cov["input_distribution"]["instantiate"] = shapes
     ctx.sample({"stream": "S-instantiate", "case": inst_cases[0], "impl": impl2["instantiate"][0]})
-    try:
-        cases = [(g_inst_case(c, r), [r["res"], r["ct"]], c) for c, r in zip(inst_cases, impl2["instantiate"])]
-        mism = ctx.model_stream("S-instantiate", HDR, "inst_case", "(fun c => L [inst_observe c; ct_observe c])", cases, shard=50)
+
+    def h_inst(mism):
         for idx, mv in mism[:3]:
             ctx.violation("inst%d" % idx, {"stream": "S-instantiate", "case": inst_cases[idx],
                                             "implementation": impl2["instantiate"][idx], "model [task graphs, completion time]": mv,
                                             "what": "generated task graphs / JobGraph.completion_time differ from the model's "
                                                     "instantiation"})
-        # the interval requested from random.uniform for every deadline: completion_time*|variance|/100.0
-        cases = []
-        keep = []
-        for c, r in zip(inst_cases, impl2["instantiate"]):
-            if r["ct"][0] != 0 or not r["ct"][1] or not r.get("uniform_args"):
-                continue
-            var = c["variance"] if c["variance"] is not None else \
-                ([c["flags"]["minv"], c["flags"]["maxv"]] if c["flags"] is not None else [0, 0])
-            for a in r["uniform_args"][:2]:
-                cases.append(("(%s, %s, %s)" % (gz(r["ct"][1][0]), gz(var[0]), gz(var[1])), [0, a], c))
-                keep.append((c, a))
-        mism = ctx.model_stream("S-uniform-request", HDR, "Z * Z * Z", "uniform_request", cases)
+    ic = [(g_inst_case(c, r), [r["res"], r["ct"]], c) for c, r in zip(inst_cases, impl2["instantiate"])]
+    D.add("S-instantiate", lambda: ctx.model_stream("S-instantiate", HDR, "inst_case",
+                                                    "(fun c => L [inst_observe c; ct_observe c])", ic, shard=40), h_inst)
+    # the interval requested from random.uniform: completion_time*|variance|/100.0 (with branch-predicated deadlines
+    # only the first request of a graph is made with the completion time)
+    uq_cases = []
+    uq_keep = []
+    for c, r in zip(inst_cases, impl2["instantiate"]):
+        if r["ct"][0] != 0 or not r["ct"][1] or not r.get("uniform_args"):
+            continue
+        var = c["variance"] if c["variance"] is not None else \
+            ([c["flags"]["minv"], c["flags"]["maxv"]] if c["flags"] is not None else [0, 0])
+        bpd = bool(c["flags"] and c["flags"].get("bpd"))
+        for a in r["uniform_args"][:(1 if bpd else 2)]:
+            uq_cases.append(("(%s, %s, %s)" % (gz(r["ct"][1][0]), gz(var[0]), gz(var[1])), [0, a], c))
+            uq_keep.append((c, a))
+
+    def h_uq(mism):
         for idx, mv in mism[:3]:
-            ctx.violation("unireq%d" % idx, {"stream": "S-uniform-request", "case": keep[idx][0], "implementation": keep[idx][1],
+            ctx.violation("unireq%d" % idx, {"stream": "S-uniform-request", "case": uq_keep[idx][0], "implementation": uq_keep[idx][1],
                                               "model": mv, "what": "the interval requested from random.uniform is not "
                                                                    "[completion_time*|min_variance|/100, completion_time*|max_variance|/100]"})
-    except core.ModelEvalError as e:
-        ctx.broken.append({"kind": "correspondence", "name": "S-instantiate", "detail": str(e)[-600:]})
+    D.add("S-uniform-request", lambda: ctx.model_stream("S-uniform-request", HDR, "Z * Z * Z", "uniform_request", uq_cases), h_uq)
 
     ctx.rules.append("S-closed-loop: Workload.notify_task_graph_completion driven with generated notification sequences "
                      "(in-flight graphs, already finished graphs, unknown graphs) on closed-loop job graphs with "
@@ -711,52 +763,43 @@ def run(ctx):
         if any(s[0] == 0 and s[1] for s in r["steps"]):
             nt += 1
     ctx.cov["distinct_nontrivial"] += nt
-    try:
-        cases = []
-        keep = []
-        for c, r in zip(cl_cases, impl2["closed_loop"]):
-            if r["init"][0] == 1:
-                continue                  # constructor refused (conc == 0 or n == 0): nothing to drive
-            keep.append((c, r))
-            exp = [[s[0], ([s[1][0]] if s[1] else []), s[2]] if s[0] == 0 else [1, s[1]] for s in r["steps"]]
-            cases.append(("(%s, %s, %s)" % (gz(c["conc"]), gz(c["n"]), glist([gz(g) for g in c["notify"]])), exp, c))
-        mism = ctx.model_stream("S-closed-loop", HDR, "Z * Z * list Z", "cl_observe", cases)
+    clc = []
+    cl_keep = []
+    for c, r in zip(cl_cases, impl2["closed_loop"]):
+        if r["init"][0] == 1:
+            continue                  # constructor refused (conc == 0 or n == 0): nothing to drive
+        cl_keep.append((c, r))
+        exp = [[s[0], ([s[1][0]] if s[1] else []), s[2]] if s[0] == 0 else [1, s[1]] for s in r["steps"]]
+        clc.append(("(%s, %s, %s)" % (gz(c["conc"]), gz(c["n"]), glist([gz(g) for g in c["notify"]])), exp, c))
+
+    def h_cl(mism):
         for idx, mv in mism[:3]:
-            ctx.violation("cl%d" % idx, {"stream": "S-closed-loop", "case": keep[idx][0], "implementation": keep[idx][1],
+            ctx.violation("cl%d" % idx, {"stream": "S-closed-loop", "case": cl_keep[idx][0], "implementation": cl_keep[idx][1],
                                           "model": mv, "what": "closed-loop re-release differs from the bookkeeping machine"})
-        for c, r in keep:
+        for c, r in cl_keep:
             bad = [s for s in r["steps"] if s[0] == 0 and (len(s[1]) > 1 or s[3] != 1)]
             if bad:
                 ctx.violation("cltime", {"stream": "S-closed-loop", "case": c, "implementation": r,
                                          "what": "a re-released graph does not start at completion + 1us at its sources"})
                 break
-    except core.ModelEvalError as e:
-        ctx.broken.append({"kind": "correspondence", "name": "S-closed-loop", "detail": str(e)[-600:]})
+    D.add("S-closed-loop", lambda: ctx.model_stream("S-closed-loop", HDR, "Z * Z * list Z", "cl_observe", clc), h_cl)
 
-    mark("instantiate+closed-loop")
     # ---------------- S-loader, S-worker-loader
-    n_ld = 320 if quick else 5000
-    n_wl = 120 if quick else 1500
-    ld_cases = []
-    while len(ld_cases) < n_ld:
-        c = gen_loader_case(rng)
-        if not is_periodic_finding(c):          # the known finding is replayed separately (corpus/C19)
-            ld_cases.append(c)
-    wl_cases = [gen_worker_case(rng) for _ in range(n_wl)]
-    impl3 = core.run_impl("release.py", {"loader": ld_cases, "worker_loader": wl_cases})
     ctx.rules.append("S-loader: generated YAML/JSON workload documents (1-4 profiles with 1-3 execution/loading strategies, "
                      "typed 'any' and specific resource ids, 1-3 graphs of 1-5 nodes with slo/conditional/probability/terminal/"
                      "children, every release policy and parameter, deadline_variance, missing keys, duplicate names, unknown "
                      "profiles/children/policies) loaded by the real WorkloadLoader with and without absl flags "
-                     "(--override_*, --replication_factor, --unique_work_profiles, --override_slo, --min/max_deadline); "
+                     "(--override_*, --replication_factor, --unique_work_profiles, --override_slo, --min/max_deadline, "
+                     "--loop_timeout, --use_branch_predicated_deadlines); "
                      "job graphs, policies, profiles, strategies, resources and all generated task graphs compared field by "
                      "field; distinct = distinct (document, flags); non-trivial = loads successfully with >= 1 task graph "
                      "of >= 2 tasks, or is rejected")
     nt = 0
-    ld_dist = {"ok": 0, "errors": 0, "with_flags": 0, "replicated": 0, "task_graphs": 0}
+    ld_dist = {"ok": 0, "errors": 0, "with_flags": 0, "replicated": 0, "task_graphs": 0, "branch_predicated": 0}
     for c, r in zip(ld_cases, impl3["loader"]):
         ld_dist["with_flags"] += c["flags"] is not None
         ld_dist["replicated"] += bool(c["rf"] and c["rf"]["repl"] > 1)
+        ld_dist["branch_predicated"] += bool(c["rf"] and c["rf"].get("bpd"))
         if r["res"][0] == 1:
             ld_dist["errors"] += 1
             nt += 1
@@ -766,33 +809,34 @@ def run(ctx):
             ld_dist["task_graphs"] += ntg
             if any(len(tg[1]) >= 2 for x in r["res"][1][1] for tg in x[2][0]):
                 nt += 1
-    ctx.cov["distinct_nontrivial"] += nt
+    ctx.cov["distinct_nontrivial"] += nt + len({repr(c["doc"]) for c in wl_cases})
     ctx.cov["input_distribution"]["loader"] = ld_dist
     ctx.sample({"stream": "S-loader", "doc": ld_cases[1]["doc"], "flags": ld_cases[1]["flags"]})
-    try:
-        cases = [(g_load_case(c, r), r["res"], c) for c, r in zip(ld_cases, impl3["loader"])]
-        mism = ctx.model_stream("S-loader", HDR, "load_case", "load_observe", cases, shard=40)
+
+    def h_ld(mism):
         for idx, mv in mism[:3]:
             ctx.violation("load%d" % idx, {"stream": "S-loader", "document": ld_cases[idx]["doc"], "format": ld_cases[idx]["fmt"],
                                             "flags": ld_cases[idx]["flags"], "implementation": impl3["loader"][idx],
                                             "model": mv,
                                             "what": "objects built by WorkloadLoader differ from the description"})
-        cases = [(g_pools(c["doc"]), r["res"], c) for c, r in zip(wl_cases, impl3["worker_loader"])]
-        mism = ctx.model_stream("S-worker-loader", HDR, "list d_pool", "pools_observe", cases)
+    ldc = [(g_load_case(c, r), r["res"], c) for c, r in zip(ld_cases, impl3["loader"])]
+    D.add("S-loader", lambda: ctx.model_stream("S-loader", HDR, "load_case", "load_observe", ldc, shard=30), h_ld)
+
+    def h_wl(mism):
         for idx, mv in mism[:3]:
             ctx.violation("pools%d" % idx, {"stream": "S-worker-loader", "document": wl_cases[idx]["doc"],
                                              "implementation": impl3["worker_loader"][idx], "model": mv,
                                              "what": "worker pools built by WorkerLoader differ from the description"})
-        ctx.cov["distinct_nontrivial"] += len({repr(c["doc"]) for c in wl_cases})
-    except core.ModelEvalError as e:
-        ctx.broken.append({"kind": "correspondence", "name": "S-loader", "detail": str(e)[-600:]})
+    wlc = [(g_pools(c["doc"]), r["res"], c) for c, r in zip(wl_cases, impl3["worker_loader"])]
+    D.add("S-worker-loader", lambda: ctx.model_stream("S-worker-loader", HDR, "list d_pool", "pools_observe", wlc), h_wl)
 
-    mark("loaders")
     # ---------------- monitors on the implementation's own observations
-    run_monitors(ctx, rt_cases, impl["release_times"], inst_cases, impl2["instantiate"], cl_cases, impl2["closed_loop"])
-    # ---------------- corpus: regression cases of fixed defects, replay of open findings
-    mark("monitors")
-    run_corpus(ctx)
+    run_monitors(ctx, D, rt_cases, impl["release_times"], inst_cases, impl2["instantiate"], cl_cases, impl2["closed_loop"])
+    # ---------------- bridge between the translated source fragments and the model
+    D.run()
+    mark("streams+monitors")
+    # ---------------- corpus: regression cases of fixed defects, replay of the open finding
+    run_corpus(ctx, corpus_files, impl4)
     mark("corpus")
 
 
@@ -801,12 +845,7 @@ def num_sign(p):
     return (v > 0) - (v < 0)
 
 
-def gamma_unit_signature(pol):
-    """input signature of finding C19-gamma-start-unit"""
-    return pol["type"] in ("gamma", "fixed_gamma") and pol["start"][1] != 0 and pol["start"][0] != 0
-
-
-def run_monitors(ctx, rt_cases, rt_impl, inst_cases, inst_impl, cl_cases, cl_impl):
+def run_monitors(ctx, D, rt_cases, rt_impl, inst_cases, inst_impl, cl_cases, cl_impl):
     ctx.rules.append("monitors (Gallina booleans proved equivalent to the statements, Proofs/ReleaseP5.v, applied to what the "
                      "implementation produced): fixed/periodic instants equal the declared ones; poisson/gamma/fixed+gamma give N "
                      "non-decreasing instants from the start; closed-loop event logs keep in-flight <= concurrency and "
@@ -829,13 +868,14 @@ def run_monitors(ctx, rt_cases, rt_impl, inst_cases, inst_impl, cl_cases, cl_imp
             mons["periodic"].append("(%s, %s, %s, %s)" % (gz(us(pol["start"])), gz(us(pol["period"])), gz(us(c["completion"])),
                                                            glist([gz(x) for x in obs])))
             where["periodic"].append(c)
-        elif k in ("poisson", "gamma", "fixed_gamma") and pol["n"] > 0 and not gamma_unit_signature(pol) and \
+        elif k in ("poisson", "gamma", "fixed_gamma") and pol["n"] > 0 and \
                 (k != "fixed_gamma" or (num_sign(pol["base"]) >= 0 and num_sign(pol["rate"]) > 0)):
             mons["arrivals"].append("(%s, %s, %s)" % (gz(us(pol["start"])), gz(pol["n"]), glist([gz(x) for x in obs])))
             where["arrivals"].append(c)
     for c, r in zip(inst_cases, inst_impl):
         if r["res"][0] != 0 or r["ct"][0] != 0 or not r["ct"][1]:
             continue
+        bpd = bool(c["flags"] and c["flags"].get("bpd"))
         ct = r["ct"][1][0] * UF[r["ct"][1][1]]
         var = c["variance"] if c["variance"] is not None else \
             ([c["flags"]["minv"], c["flags"]["maxv"]] if c["flags"] is not None else [0, 0])
@@ -843,7 +883,7 @@ def run_monitors(ctx, rt_cases, rt_impl, inst_cases, inst_impl, cl_cases, cl_imp
         names = [j["name"] for j in c["jobs"]]
         dag = all(a < b for a, b in c["edges"]) and len({tuple(e) for e in c["edges"]}) == len(c["edges"])
         if len(set(names)) == len(names) and dag:     # precondition of the property: job names identify the jobs, the graph is a DAG
-            for rel, dl in r["tg_meta"]:
+            for rel, dl in ([] if bpd else r["tg_meta"]):      # (with bpd the base is not JobGraph.completion_time)
                 mons["deadline"].append("(%s, %s, %s, %s, %s, %s)" % (gz(ct), gz(var[0]), gz(var[1]), gz(minb), gz(maxb), gz(dl - rel)))
                 where["deadline"].append(c)
             jobs = glist(["(%s, %s)" % (gz(j["name"]), glist([gz(c["jobs"][b]["name"]) for a, b in c["edges"] if a == k]))
@@ -887,38 +927,39 @@ def run_monitors(ctx, rt_cases, rt_impl, inst_cases, inst_impl, cl_cases, cl_imp
         ("cl", "Z * Z * list bool", "(fun c => let '(k, n, l) := c in mon_closed_loop k n 0 0 l)",
          "closed loop: more than `concurrency` graphs in flight or more than N released"),
     ]
-    from concurrent.futures import ThreadPoolExecutor
-    todo = [sp for sp in specs if mons[sp[0]]]
-    with ThreadPoolExecutor(max_workers=6) as ex:      # the six monitor evaluations are independent coqc runs
-        futs = {sp[0]: ex.submit(ctx.monitor_stream, "M-" + sp[0], HDR, sp[1], sp[2], mons[sp[0]]) for sp in todo}
-    for key, ty, fn, what in todo:
-        try:
-            bad = futs[key].result()
-        except core.ModelEvalError as e:
-            ctx.broken.append({"kind": "monitor", "name": "M-" + key, "detail": str(e)[-600:]})
+    for key, ty, fn, what in specs:
+        if not mons[key]:
             continue
-        for b in bad[:2]:
-            ctx.violation("mon_%s%d" % (key, b), {"stream": "monitor M-" + key, "case": where[key][b], "observation": mons[key][b],
-                                                  "what": what})
+
+        def handler(bad, key=key, what=what):
+            for b in bad[:2]:
+                ctx.violation("mon_%s%d" % (key, b), {"stream": "monitor M-" + key, "case": where[key][b],
+                                                      "observation": mons[key][b], "what": what})
+        D.add("M-" + key, lambda key=key, ty=ty, fn=fn: ctx.monitor_stream("M-" + key, HDR, ty, fn, mons[key]), handler)
 
 
-def run_corpus(ctx):
+def corpus_payloads():
     import glob
     import json
     import os
     cdir = os.path.join(core.ROOT, "corpus", "C19")
     files = {os.path.basename(f): json.load(open(f)) for f in sorted(glob.glob(os.path.join(cdir, "*.json")))}
+    payload = {
+        "loader": [files["F12b_sticky_slo.json"]["case"], files["F7b_seeded_rng.json"]["case"],
+                   files["F7b_seeded_rng.json"]["case"], files["periodic_loader.json"]["case"]],
+        "release_times": [files["gamma_start_unit.json"]["case"]],
+        "instantiate": [files["branch_predicated_deadlines.json"]["case"]],
+        "closed_loop": [{"conc": 1, "n": 3, "notify": [0, 0]}]}
+    return files, payload
+
+
+def run_corpus(ctx, files, r):
     f12b = files["F12b_sticky_slo.json"]
     f7b = files["F7b_seeded_rng.json"]
     per = files["periodic_loader.json"]
-    per_noflags = dict(per["case"], flags=None, rf=None)
     gam = files["gamma_start_unit.json"]
     bpd = files["branch_predicated_deadlines.json"]
-    r = core.run_impl("release.py", {
-        "loader": [f12b["case"], f7b["case"], f7b["case"], per["case"], per_noflags],
-        "release_times": [gam["case"]], "instantiate": [bpd["case"]],
-        "closed_loop": [{"conc": 1, "n": 3, "notify": [0, 0]}]})
-    # --- regressions of fixed defects: must hold
+    # --- regression cases of defects that were fixed in /repo: must hold
     res = r["loader"][0]["res"]
     ok = res[0] == 0 and res[1][0][0][4][1][1] == f12b["expect"]["slo_of_B"] and \
         res[1][1][0][2][0][0][1][0][2] == [f12b["expect"]["deadline_us"], 0]
@@ -929,7 +970,6 @@ def run_corpus(ctx):
     if a["res"][0] != 0 or a["draws"] != b["draws"] or a["res"] != b["res"] or not a["draws"]:
         ctx.violation("F7b", {"stream": "corpus", "document": f7b["case"]["doc"], "flags": f7b["case"]["flags"],
                               "first_run": a["draws"], "second_run": b["draws"], "what": "regression of F7b: " + f7b["what"]})
-    # --- open findings: replayed, reported only while they still fail
     pr = r["loader"][3]["res"]
     rel = [tg[1][0][1][0] for tg in pr[1][1][0][2][0]] if pr[0] == 0 else None
     if rel != per["expect_release_us"]:
@@ -937,12 +977,17 @@ def run_corpus(ctx):
                                           "implementation": pr, "expected_release_us": per["expect_release_us"],
                                           "what": "regression of C19-periodic-loader: " + per["what"]})
     g = r["release_times"][0]["res"]
-    if g[0] == 0 and g[1][0] == [5, 0]:
-        ctx.known(gam["id"], "ReleasePolicy.gamma(start=5 ms) releases first at 5 us (jobs.py:324 reads start.time without "
-                             "converting); lemma gamma_first_refuted; witness corpus/C19/gamma_start_unit.json")
-    if r["instantiate"][0]["res"] == bpd["expect_res"]:
-        ctx.known(bpd["id"], "--use_branch_predicated_deadlines: AttributeError 'Job' object has no attribute 'runtime' "
-                             "(jobs.py:872-876); witness corpus/C19/branch_predicated_deadlines.json")
+    if g[0] != 0 or g[1][0] != gam["expect_first_release"]:
+        ctx.violation("gamma_start_unit", {"stream": "corpus", "case": gam["case"], "implementation": g,
+                                           "expected_first_release": gam["expect_first_release"],
+                                           "what": "regression of C19-gamma-start-unit: " + gam["what"]})
+    br = r["instantiate"][0]
+    dls = [t[2] for tg in br["res"][1][0] for t in tg[1]] if br["res"][0] == 0 else None
+    if dls is None or any(d != bpd["expect_deadline"] for d in dls) or not dls:
+        ctx.violation("branch_predicated", {"stream": "corpus", "case": bpd["case"], "implementation": br["res"],
+                                            "expected_deadline": bpd["expect_deadline"],
+                                            "what": "regression of C19-branch-predicated-deadlines: " + bpd["what"]})
+    # --- the open finding: replayed, reported only while it still fails
     st = r["closed_loop"][0]["steps"]
     if len(st) == 2 and st[0][0] == 0 and st[1][0] == 0 and st[0][1] == [1] and st[1][1] == [2]:
         ctx.known("F12a", "Workload.notify_task_graph_completion(G@0) called twice (concurrency 1, N 3) releases G@1 and G@2: "
